@@ -125,18 +125,62 @@ PROLOGUE = [(1, [("dim", [("X", [20], ["20"]), ("Y", [20], ["20"])])]),
                  ("next", ["I"])])]
 
 
+# contexts whose first block line starts with an initialiser statement before the statement that holds e
+_LEAD = {"if_noelse": 1, "if_s_noelse": 1, "for_start": 1, "for_limit": 1, "for_step": 1, "on": 1}
+PLACES = ["late", "skipif", "jump"]
+
+
+def split_ctx(ctx):
+    base, _, place = ctx.partition("@")
+    return base, (place or None)
+
+
 def build_program(ctx, e, vals_with_values):
+    """ctx may carry a placement suffix that controls what comes immediately before the statement holding e:
+    @late   - the variables get decoy values first and their real values in the statements directly before it
+              (rotated, so that every variable is the last one assigned in some block);
+    @skipif - the statement directly before it (in the text) sits in an IF arm that is not taken;
+    @jump   - it starts a line reached by a GOTO over a line that is never executed.
+    Anything the tool hoists out of e must be computed after all of that."""
+    ctx, place = split_ctx(ctx)
     prog = list(PROLOGUE)
+    n = len(vals_with_values)
     for k, (val, v_e) in enumerate(vals_with_values):
         base = 100 * (k + 1)
-        prog.append((base, valuation_stmts(val)))
-        prog.extend(block(ctx, e, base, "R%d" % (k + 1), v_e))
+        rv = "R%d" % (k + 1)
+        if place is None:
+            prog.append((base, valuation_stmts(val)))
+            prog.extend(block(ctx, e, base, rv, v_e))
+            continue
+        lines = block(ctx, e, base + 10, rv, v_e)
+        j = _LEAD.get(ctx, 0)
+        first = lines[0][1]
+        lead, rest = first[:j], first[j:]
+        if place == "late":
+            decoy = vals_with_values[(k + 1) % n][0]
+            prog.append((base, valuation_stmts(decoy)))
+            real = valuation_stmts(val)
+            r = k % len(real)
+            prog.append((base + 11, lead + real[r:] + real[:r] + rest))
+        elif place == "skipif":
+            prog.append((base, valuation_stmts(val)))
+            prog.append((base + 5, lead + [("if", ("bin", "=", X.num(1), X.num(2)),
+                                            ("stmts", [("let", ("var", "Q9"), X.num(1), False)]), [], None)]))
+            prog.append((base + 11, rest))
+        else:
+            prog.append((base, valuation_stmts(val)))
+            prog.append((base + 5, lead + [("goto", base + 11)]))
+            prog.append((base + 6, [("let", ("var", "Q9"), X.num(1), False)]))
+            prog.append((base + 11, rest))
+        prog.extend(lines[1:])
     return prog
 
 
 def source_value(ctx, e, val):
     """Run the single-valuation program on the Color BASIC reference.  -> (status, value of e or None)"""
     from ..cbref.interp import CBMachine, CBError, OutOfDomain, StepBudget
+
+    ctx = split_ctx(ctx)[0]
 
     m = CBMachine(PROLOGUE + [(3, valuation_stmts(val))])
     try:
@@ -187,6 +231,7 @@ def evaluate(ctx, e):
         return res
     res["emitted"] = conv["out"]
     b = harness.run_b09(conv["out"], budget=60000)
+    ctx = split_ctx(ctx)[0]
     res["b09_status"] = b["status"]
     if b["status"] != "ok":
         res["status"] = "b09-" + b["status"] + ("-typeclash" if (b["error"] or {}).get("typeclash") else "")
@@ -280,8 +325,9 @@ def _run_case(case):
     # counterfactual diagnosis: re-run the same meaning with the known triggers removed -- explicit parentheses
     # around every prefix group (T1) and/or the IF form without ELSE (T2); the case is attributed to a known
     # mechanism only if removing its trigger makes the case pass
-    ifelse_trigger = ctx in ("if_else", "if_s") and bool(X.all_fns(e) & CONVERTIBLE)
-    ctx2 = {"if_else": "if_noelse", "if_s": "if_s_noelse"}.get(ctx, ctx)
+    bctx, place = split_ctx(ctx)
+    ifelse_trigger = bctx in ("if_else", "if_s") and bool(X.all_fns(e) & CONVERTIBLE)
+    ctx2 = {"if_else": "if_noelse", "if_s": "if_s_noelse"}.get(bctx, bctx) + ("@" + place if place else "")
     attempts = []
     if taints:
         attempts.append(("C01/group/" + sorted(taints)[0], ctx, X.dehazard(e)))
@@ -425,6 +471,25 @@ def cases(tier, seed):
                 for e in (("bin", op2, inner, v), ("bin", op2, v, ("par", inner)), ("bin", op, l1, ("par", ("bin", op2, l2, v))),
                           ("bin", op2, ("bin", op, v, l1), l2)):
                     yield {"ctx": "assign" if k % 5 else "print", "e": e, "approx": True}
+    # 3c. placement of the statement: whatever is hoisted out of e must be computed after the statements directly
+    # before it, also when those are skipped or jumped over
+    pe = [("fn", "INT", [("bin", "/", ("var", "A"), X.num(2))]), ("fn", "VAL", [("var", "A$")]),
+          ("fn", "INSTR", [X.num(1), ("var", "A$"), ("var", "B$")]), ("fn", "LEN", [("fn", "STR$", [("var", "B")])]),
+          ("bin", "+", ("var", "A"), ("fn", "INT", [("var", "D")])), ("bin", "*", ("var", "C"), ("var", "D")),
+          ("fn", "ABS", [("fn", "INT", [("bin", "-", ("var", "B"), ("var", "C"))])])]
+    k = 0
+    for e in pe:
+        for ctx in NUM_CONTEXTS:
+            for place in PLACES:
+                k += 1
+                if tier == "quick" and k % 2 and ctx not in ("on", "assign"):
+                    continue
+                yield {"ctx": ctx + "@" + place, "e": e}
+    for e in [("fn", "STR$", [("var", "A")]), ("fn", "HEX$", [("fn", "INT", [("var", "B")])]), ("bin", "+", ("var", "A$"), ("fn", "STRING$", [X.num(2), ("var", "B$")])),
+              ("fn", "LEFT$", [("var", "A$"), ("fn", "INT", [("var", "C")])])]:
+        for ctx in STR_CONTEXTS:
+            for place in PLACES:
+                yield {"ctx": ctx + "@" + place, "e": e}
     # 4. built-in functions on every operand kind, nested two deep
     num_ops = [("var", "A"), X.num(2.5), ("un", "-", ("var", "B")), ("bin", "-", ("var", "A"), ("var", "B")),
                ("par", ("bin", "*", ("var", "C"), ("var", "D"))), ("arr", "X", [X.num(3)]), ("hex", 255, "FF")]
@@ -497,9 +562,10 @@ def cases(tier, seed):
     g = X.ExprGen(rng, num_arrays=[("X", 1)])
     for i in range(nrand):
         x = rng.random()
+        place = ("@" + rng.choice(PLACES)) if rng.random() < 0.2 else ""
         if x < 0.55:
-            yield {"ctx": rng.choice(NUM_CONTEXTS), "e": g.num(rng.choice([2, 3, 3, 4]))}
+            yield {"ctx": rng.choice(NUM_CONTEXTS) + place, "e": g.num(rng.choice([2, 3, 3, 4]))}
         elif x < 0.8:
-            yield {"ctx": rng.choice(COND_CONTEXTS), "e": g.cond(rng.choice([1, 2, 3]))}
+            yield {"ctx": rng.choice(COND_CONTEXTS) + place, "e": g.cond(rng.choice([1, 2, 3]))}
         else:
-            yield {"ctx": rng.choice(STR_CONTEXTS), "e": g.str(rng.choice([1, 2, 3]))}
+            yield {"ctx": rng.choice(STR_CONTEXTS) + place, "e": g.str(rng.choice([1, 2, 3]))}
